@@ -728,6 +728,7 @@ class Eval:
         self.plt = _quiet_matplotlib()
         self.keys = []
         self.per_fn = {}
+        self.held = None       # (fname, enc args, [arrays of the port's previous result], [their snapshots])
 
     def _count(self, fname, what):
         d = self.per_fn.setdefault(fname, {})
@@ -759,6 +760,32 @@ class Eval:
             if fname == "SimulateControl":
                 self.plt.close("all")
 
+    @staticmethod
+    def _arrays(out):
+        if isinstance(out, np.ndarray):
+            return [out]
+        if isinstance(out, (tuple, list)):
+            r = []
+            for x in out:
+                r += Eval._arrays(x)
+            return r
+        return []
+
+    def _hold(self, fname, args, out):
+        """A result is a value: the port's NEXT call (any function) must not change what the previous call returned.
+        (A kernel that hands out a module-level scratch buffer as its result is only wrong for a caller who keeps it.)"""
+        prev = self.held
+        if prev is not None:
+            for a, snap in zip(prev[2], prev[3]):
+                if a.shape != snap.shape or not np.array_equal(a, snap, equal_nan=True):
+                    self.acc.violation("earlier_result_overwritten",
+                                       {"fn": prev[0], "args": prev[1], "then_fn": fname, "then_args": enc_args(args), "kind": "held"},
+                                       float(np.abs(a - snap).max()) if a.shape == snap.shape else "shape changed", 0.0, {},
+                                       {"fn_" + prev[0]: True})
+                    break
+        arrs = self._arrays(out)
+        self.held = (fname, enc_args(args), arrs, [a.copy() for a in arrs]) if arrs else None
+
     def case(self, fname, args, opts, part=None, idx=None):
         if opts.get("kind") == "ik":
             return self.case_ik(fname, args, part, idx)
@@ -777,6 +804,7 @@ class Eval:
             acc.violation("raised_where_reference_returns", case, repr(p)[:300], None, {}, fl)
             self._count(fname, "port_raised")
             return
+        self._hold(fname, args, p)
         st, val = compare(p, r, tol)
         if st == "ref_not_finite":
             acc.skip("reference_not_finite")
@@ -1051,6 +1079,15 @@ def replay(rec):
     c = rec["case"]
     args = dec_args(c["args"])
     E = Eval(lattice.Acc())
+    if c.get("kind") == "held":
+        ok1, first = E._call(E.mr, c["fn"], args)
+        if not ok1:
+            return []
+        E._hold(c["fn"], args, first)
+        ok2, second = E._call(E.mr, c["then_fn"], dec_args(c["then_args"]))
+        if ok2:
+            E._hold(c["then_fn"], dec_args(c["then_args"]), second)
+        return [v for v in E.acc.viols if v["clause"] == rec["clause"]]
     opts = {"kind": c.get("kind"), "tol": c.get("tol", TOL), "tie": c.get("tie", False)}
     E.case(c["fn"], args, opts, c.get("part"), c.get("idx"))
     return [v for v in E.acc.viols if v["clause"] == rec["clause"]]
